@@ -113,6 +113,52 @@ Proof.
     + intros k Hk. apply d_mem_d_set_mono; exact Hk.
 Qed.
 
+(* ---------- the shape of anything write_headers writes ---------- *)
+Lemma rsn_valid : forall rsn, match rsn with [] => true | _ => forallb is_fv_char rsn end = true ->
+  forallb valid_hchar rsn = true.
+Proof.
+  intros rsn H. destruct rsn as [|c r]; [reflexivity|].
+  rewrite <- H. apply forallb_ext_eq. intro y. symmetry. apply fv_char_valid.
+Qed.
+Lemma write_headers_shape : forall c rsn h0 w nz h',
+  write_headers c rsn h0 = inr (w, nz, h') ->
+  exists start, status_line c rsn = Some start /\
+    w = block (start :: map header_line (pairs_of h')) /\
+    forallb clean_line (start :: map header_line (pairs_of h')) = true /\
+    forallb well_formed_header (map header_line (pairs_of h')) = true /\
+    forallb valid_hchar rsn = true /\
+    (h' = h0 \/ (h' = h_set k_te v_chunked h0 /\ h_mem k_clen h0 = false)).
+Proof.
+  intros c rsn h0 w nz h' H. unfold write_headers in H. unfold status_line.
+  destruct (utf8_encode (t "HTTP/1.1 "%string ++ dec c ++ [c_sp] ++ rsn)) as [start|] eqn:Es; [|discriminate].
+  set (chunking := negb (no_body_code c) && negb (h_mem k_clen h0)) in *.
+  set (h := if chunking then h_set k_te v_chunked h0 else h0) in *.
+  match type of H with match ?e with _ => _ end = _ => destruct e as [ex|]; [|discriminate] end.
+  match type of H with (if negb ?b then _ else _) = _ => destruct b eqn:Rs; cbn [negb] in H; [|discriminate] end.
+  apply rsn_valid in Rs.
+  match type of H with (if negb ?b then _ else _) = _ => destruct b eqn:Tk; cbn [negb] in H; [|discriminate] end.
+  destruct (sequence_o (map (fun kv : text * text => latin1 (header_line kv)) (pairs_of h))) as [ls|] eqn:Sq;
+    [|discriminate].
+  destruct (existsb has_cr_lf (start :: ls)) eqn:Cr; [discriminate|].
+  inversion H; subst w h'. clear H. apply sequence_latin1 in Sq. subst ls.
+  assert (TkV : forall kv, In kv (pairs_of h) -> is_token (fst kv) = true /\ forallb valid_hchar (snd kv) = true).
+  { intros kv Hkv. eapply forallb_forall in Tk; eauto. apply andb_true_iff in Tk. exact Tk. }
+  assert (Hstart : clean_line start = true).
+  { assert (V : forallb valid_hchar start = true).
+    { eapply utf8_encode_valid; [|exact Es]. rewrite !forallb_app. rewrite dec_valid, Rs.
+      vm_compute. reflexivity. }
+    change (t "HTTP/1.1 "%string ++ dec c ++ [c_sp] ++ rsn) with (72 :: (t "TTP/1.1 "%string ++ dec c ++ [c_sp] ++ rsn)) in Es.
+    apply utf8_encode_cons_ascii in Es as [b' Eb]; [|lia]. subst start. exact V. }
+  exists start. split; [reflexivity|]. split; [apply join_block|]. split; [|split; [|split; [exact Rs|]]].
+  - cbn [forallb]. rewrite Hstart. cbn [andb]. apply forallb_forall. intros l Hl.
+    apply in_map_iff in Hl as ([k v] & <- & Hkv). destruct (TkV _ Hkv) as [T V].
+    apply header_line_clean; auto.
+  - apply forallb_forall. intros l Hl. apply in_map_iff in Hl as ([k v] & <- & Hkv).
+    destruct (TkV _ Hkv) as [T V]. apply header_line_wf. exact T.
+  - unfold h. destruct chunking eqn:Ck; [right|left; reflexivity]. split; [reflexivity|].
+    unfold chunking in Ck. apply andb_true_iff in Ck as [_ Ck]. apply negb_true_iff in Ck. exact Ck.
+Qed.
+
 Section Inv.
   Variable env : text * text.
   Hypothesis Henv : env_ok env.
@@ -344,46 +390,20 @@ Section Inv.
     (n <= 4 + length A)%nat ->
     good_wire A C R w.
   Proof.
-    intros A C R c rsn h0 w nz h' n H Hh Hr Hc HR Hn HnA. unfold write_headers in H.
-    destruct (utf8_encode (t "HTTP/1.1 "%string ++ dec c ++ [c_sp] ++ rsn)) as [start|] eqn:Es; [|discriminate].
-    set (chunking := negb (no_body_code c) && negb (h_mem k_clen h0)) in *.
-    set (h := if chunking then h_set k_te v_chunked h0 else h0) in *.
-    match type of H with match ?e with _ => _ end = _ => destruct e as [ex|]; [|discriminate] end.
-    destruct (negb (forallb (fun kv : text * text => is_token (fst kv)) (pairs_of h))) eqn:Tk; [discriminate|].
-    apply negb_false_iff in Tk.
-    destruct (sequence_o (map (fun kv : text * text => latin1 (header_line kv)) (pairs_of h))) as [ls|] eqn:Sq;
-      [|discriminate].
-    destruct (existsb has_cr_lf (start :: ls)); [discriminate|].
-    inversion H; subst w h'. clear H.
-    apply sequence_latin1 in Sq. subst ls.
-    assert (HPh : Forall (HP A) (pairs_of h)).
-    { unfold h. destruct chunking; [|exact Hh]. unfold h_set. rewrite norm_te.
-      apply pairs_d_set_Forall; auto. cbn [map]. constructor; [|constructor]. split.
-      - vm_compute. reflexivity.
-      - apply in_or_app. left. unfold base. apply in_or_app. right. left. reflexivity. }
-    assert (HLh : (length (pairs_of h) <= n)%nat).
-    { unfold h. destruct chunking eqn:Ck.
-      - unfold chunking in Ck. apply andb_true_iff in Ck as [_ Ck]. apply negb_true_iff in Ck.
-        destruct Hn as [[Hm _]|Hn]; [congruence|].
-        unfold h_set. pose proof (pairs_d_set_len (normalize_u k_te) [v_chunked] h0). simpl in *. lia.
-      - destruct Hn as [[_ Hn]|Hn]; lia. }
-    exists start, (map header_line (pairs_of h)).
-    split; [apply join_block|].
-    assert (Hstart : clean_line start = true).
-    { assert (V : forallb valid_hchar start = true).
-      { eapply utf8_encode_valid; [|exact Es]. rewrite !forallb_app. rewrite dec_valid, Hr.
-        vm_compute. reflexivity. }
-      change (t "HTTP/1.1 "%string ++ dec c ++ [c_sp] ++ rsn) with (72 :: (t "TTP/1.1 "%string ++ dec c ++ [c_sp] ++ rsn)) in Es.
-      apply utf8_encode_cons_ascii in Es as [b' Eb]; [|lia]. subst start. exact V. }
-    repeat split.
-    - cbn [forallb]. rewrite Hstart. cbn [andb]. apply forallb_forall. intros l Hl.
-      apply in_map_iff in Hl as ([k v] & <- & Hkv).
-      apply header_line_clean.
-      + eapply forallb_forall in Tk; eauto. exact Tk.
-      + eapply Forall_forall in HPh; eauto. destruct HPh as [V _]. exact V.
-    - exists c, rsn. repeat split; auto.
-    - apply forallb_forall. intros l Hl. apply in_map_iff in Hl as ([k v] & <- & Hkv).
-      apply header_line_wf. eapply forallb_forall in Tk; eauto. exact Tk.
+    intros A C R c rsn h0 w nz h' n H Hh Hr Hc HR Hn HnA.
+    apply write_headers_shape in H as (start & Hs & Ew & Cl & Wf & _ & Hte).
+    assert (HPh : Forall (HP A) (pairs_of h') /\ (length (pairs_of h') <= n)%nat).
+    { destruct Hte as [->|[-> Hm]].
+      - split; [exact Hh|]. destruct Hn as [[_ Hn]|Hn]; lia.
+      - unfold h_set. rewrite norm_te. split.
+        + apply pairs_d_set_Forall; auto. cbn [map]. constructor; [|constructor]. split.
+          * vm_compute. reflexivity.
+          * apply in_or_app. left. unfold base. apply in_or_app. right. left. reflexivity.
+        + destruct Hn as [[Hm' _]|Hn]; [congruence|].
+          pose proof (pairs_d_set_len k_te [v_chunked] h0). simpl in *. lia. }
+    destruct HPh as [HPh HLh].
+    exists start, (map header_line (pairs_of h')).
+    split; [exact Ew|]. split; [exact Cl|]. split; [exists c, rsn; auto|]. split; [exact Wf|]. split.
     - apply Forall_forall. intros l Hl. apply in_map_iff in Hl as (kv & <- & Hkv).
       eapply Forall_forall in HPh; eauto. destruct HPh as [_ I]. exact I.
     - rewrite map_length. lia.
